@@ -240,6 +240,29 @@ impl Clone for Rec {
     }
 }
 
+/// like `Rec`, but with INHERENT methods named `clone` / `clone_from` that do something else
+#[derive(Debug, PartialEq, Eq, Default)]
+pub struct RecI(pub u32);
+impl RecI {
+    pub fn clone(&self) -> RecI {
+        log(format!("inherent-clone({})", self.0));
+        RecI(9999)
+    }
+    pub fn clone_from(&mut self, src: &RecI) {
+        log(format!("inherent-clone_from({}<-{})", self.0, src.0));
+    }
+}
+impl Clone for RecI {
+    fn clone(&self) -> RecI {
+        log(format!("clone({})", self.0));
+        RecI(self.0)
+    }
+    fn clone_from(&mut self, src: &RecI) {
+        log(format!("clone_from({}<-{})", self.0, src.0));
+        self.0 = src.0;
+    }
+}
+
 /// Copy + call-logging Clone (for Clone derived next to Copy)
 #[derive(Debug, PartialEq, Eq, Default, Copy)]
 pub struct RecC(pub u32);
